@@ -34,6 +34,7 @@ Inductive herr :=
 | EInvalidURI
 | EBadStatus            (* response: invalid status code *)
 | EStartSpace           (* headers cannot start with space or tab *)
+| EBadBlockEnd          (* the header block must end with an empty CRLF line (request side) *)
 | EMissingColon         (* malformed mime header: missing colon *)
 | EBadKeyLine           (* malformed mime header line (invalid key bytes) *)
 | EInvalidKey           (* invalid header key (space before colon / empty) *)
@@ -262,6 +263,7 @@ Definition req_parseHeaders (cfg : hcfg) (noHTTP11 : bool) (buf : bytes) (blockE
   | IEmpty => Ok (PHOk (req_finish noHTTP11 rq_init) 2)
   | INeedMore => Ok PHNeedMore
   | IStartSpace => Ok (PHErr EStartSpace)
+  | IBadBlockEnd => Ok (PHErr EBadBlockEnd)
   | IReady b =>
       do lr <- req_headers_loop (S (length b)) cfg noHTTP11 b 0 rq_init;
       match lr with
